@@ -1,3 +1,19 @@
 #!/bin/sh
-# placeholder; replaced by the real build below
-exit 0
+# Builds the whole framework offline from files on disk: the Coq development (full .vo build)
+# and the correspondence harness against /repo's current working tree.
+set -e
+cd "$(dirname "$0")"
+export CARGO_NET_OFFLINE=true
+mkdir -p run evidence replays
+cd coq
+( echo "-Q theories IB"; find theories -name '*.v' | sort ) > _CoqProject
+coq_makefile -f _CoqProject -o Makefile
+timeout 3000 make -j16
+cd ../harness
+cp /repo/Cargo.lock Cargo.lock
+cp /repo/Cargo.lock .repo-lock-copy
+timeout 3000 cargo build --offline --bins
+if grep -q '"release": true' ../props/*.json 2>/dev/null; then
+  timeout 3000 cargo build --offline --release --bins
+fi
+echo "setup done"
